@@ -478,6 +478,12 @@ def gen_special(L, K, rng, nsteps):
     def alloc_eq(a, b):
         return bool(K[3]) or a == b
 
+    def pick2(xs):
+        """two operands: different ones nine times out of ten (self-assignment / self-swap stay covered)"""
+        a = rng.choice(xs)
+        others = [x for x in xs if x != a]
+        return (a, rng.choice(others)) if others and rng.random() < 0.9 else (a, a)
+
     mk(0)
     for _ in range(nsteps):
         r = rng.random()
@@ -510,7 +516,7 @@ def gen_special(L, K, rng, nsteps):
             g.lines.append("copyctor %d %d" % (d, src))
             g.stat("copyctor")
         elif r < 0.72 and len(lv) >= 1:
-            d, src = rng.choice(lv), rng.choice(lv)
+            d, src = pick2(lv)
             if g.moved[src] and d != src:
                 continue
             if d != src:
@@ -537,7 +543,7 @@ def gen_special(L, K, rng, nsteps):
             g.lines.append("movector %d %d" % (d, src))
             g.stat("movector")
         elif r < 0.90 and lv:
-            d, src = rng.choice(lv), rng.choice(lv)
+            d, src = pick2(lv)
             if d != src:
                 dv, sv = g.slots[d], g.slots[src]
                 if K[3] or K[1] or dv.aid == sv.aid:
@@ -571,7 +577,7 @@ def gen_special(L, K, rng, nsteps):
                 g.stat("moveassign-self")
             g.lines.append("moveassign %d %d" % (d, src))
         elif r < 0.96 and lv:
-            a, b = rng.choice(lv), rng.choice(lv)
+            a, b = pick2(lv)
             if a != b:
                 x, y = g.slots[a], g.slots[b]
                 if not K[2] and not alloc_eq(x.aid, y.aid):
@@ -1203,3 +1209,45 @@ def gen_fault_moved_from(L, K, rng):
             lines = g.lines + ["destroy %d" % s for s in range(4)] + ["edestroy %d" % s for s in range(4)]
             out.append(lines)
     return out
+
+
+def gen_move_smaller_block(L, K, rng):
+    """element-wise move assignment (unequal non-propagating allocators) into a target that
+    has MORE capacity but a SMALLER block than the source (few but large elements into many
+    but small ones): the target's block must not be reused"""
+    g = ScriptGen(L, K, rng)
+    if not has_varying(L):
+        return None
+    per = sum(p.size for p in L if p.kind == VARYING)
+    fixed = [rng.choice([0, 1, 2]) for _ in range(nfixed(L))]
+    g.op_mkvec(0, cap=rng.choice([4, 6, 8]), budget=0, fixed=fixed, aid=1)
+    # the source's block is made larger than the target's, with less capacity
+    cap1 = rng.choice([1, 2, 3])
+    budget1 = per * 8
+    while SpecVec(L, cap1, budget1, fixed, 2, K).block <= g.slots[0].block + 2 * per:
+        budget1 += per * 8
+    g.op_mkvec(1, cap=cap1, budget=budget1, fixed=fixed, aid=2)
+    v = g.slots[1]
+    for _ in range(v.cap):
+        # use (nearly) the whole budget so that the data does not fit the target's block
+        room = v.budget - v.payload()
+        share = max(room // max(per, 1) // max(v.cap - len(v.elems), 1), 0)
+        tup = g.rand_tuple(fixed, 0)
+        for k, p in enumerate(L):
+            if p.kind == VARYING:
+                c = min(share, 256 ** min(L[k - 1].size, 8) - 1)
+                tup[k] = [g.rand_obj(p) for _ in range(c)]
+                tup[k - 1] = [le(c, L[k - 1].size)]
+        if v.fits(tup, True):
+            v.elems.append(tup)
+            g.lines.append(g.emplace_line(1, tup))
+    if rng.random() < 0.5:
+        g.op_emplace(0)
+    dv, sv = g.slots[0], g.slots[1]
+    nv = sv.clone()
+    nv.aid = dv.aid
+    g.slots[0] = nv
+    g.lines.append("moveassign 0 1")
+    g.lines.append("observe 0")
+    g.stat("moveassign-more-capacity-smaller-block")
+    return g.finish(), g.stats
